@@ -81,4 +81,62 @@ for op, fn in HFN.items():
       sources=['src/str/strnlen_s.c'], defines=['OP=%d' % op], enforce=fn, functions=[fn], frame_prop=['C13'],
       timeout=300, note='real safe_str_constraint.c / safe_mem_constraint.c #included unmodified; arbitrary pre-state of all four cells')
 
+# ---- word-unrolled primitives (mem_primitives_lib.c): bounded by enumeration (DESIGN section 1)
+PRIM = 'src/mem/mem_primitives_lib.c'
+
+
+def move_variants(das, offs, lens):
+    out = []
+    for off in offs:
+        for da in das:
+            for ln in lens:
+                bufsz = 8 + 8 + (ln + abs(off) + 1) + 8
+                out.append({'label': 'off%+d.da%d.len%d' % (off, da, ln),
+                            'defines': ['SINGLE', 'OFF=%d' % off, 'DA=%d' % da, 'LEN=%d' % ln],
+                            'unwind': bufsz + 2,
+                            'unwindset': ['mem_prim_move.%d:%d' % (i, ln + 3) for i in range(6)]})
+    return out
+
+
+def set_variants(das, lens):
+    out = []
+    for da in das:
+        for ln in lens:
+            bufsz = 8 + 8 + (ln + 1) + 8
+            out.append({'label': 'da%d.len%d' % (da, ln), 'defines': ['SINGLE', 'DA=%d' % da, 'LEN=%d' % ln],
+                        'unwind': bufsz + 2,
+                        'unwindset': ['mem_prim_set.0:10', 'mem_prim_set.1:%d' % (ln // 128 + 3), 'mem_prim_set.2:10']})
+    return out
+
+
+PRIM_PROPS = ['C01', 'C06', 'C07', 'C18']
+Q_LENS = [1, 2, 3, 5, 8, 9, 17]
+J('B.mem_prim_move.q', PRIM_PROPS, 'B', 'harness/memprim.c', sources=[PRIM], defines=['FN=4'], replay=True,
+  variants=move_variants([0, 1, 3], [1, 8, 64, -1, -8], Q_LENS), functions=['mem_prim_move'], no_std_checks=False,
+  bound='enumerated: dest alignment {0,1,3}, src-dest in {1,8,64,-1,-8}, len in %s; contents symbolic' % Q_LENS,
+  timeout=600, tiers=('quick',))
+J('B.mem_prim_move.full', PRIM_PROPS, 'B', 'harness/memprim.c', sources=[PRIM], defines=['FN=4'], replay=True,
+  variants=move_variants(range(8), [1, 2, 3, 7, 8, 9, 16, 64, -1, -2, -3, -7, -8, -9, -16, -64], range(1, 27)),
+  functions=['mem_prim_move'], bound='enumerated: every dest alignment 0..7, src-dest in +-{1,2,3,7,8,9,16,64}, len 1..26; contents symbolic',
+  timeout=900, tiers=('thorough',))
+J('B.mem_prim_set.q', PRIM_PROPS, 'B', 'harness/memprim.c', sources=[PRIM], defines=['FN=1'], replay=True,
+  variants=set_variants([0, 1, 3, 7], [0, 1, 2, 7, 8, 9, 16, 17, 31, 64, 65, 130, 137, 264]), object_bits=10, functions=['mem_prim_set'],
+  bound='enumerated: dest alignment {0,1,3,7}, len in {0,1,2,7,8,9,16,17,31,64,65,130,137,264}; fill value and contents symbolic',
+  timeout=600, tiers=('quick',))
+J('B.mem_prim_set.full', PRIM_PROPS, 'B', 'harness/memprim.c', sources=[PRIM], defines=['FN=1'], replay=True,
+  variants=set_variants(range(8), list(range(0, 41)) + list(range(120, 140)) + list(range(248, 268)) + [300, 391]), object_bits=10,
+  functions=['mem_prim_set'], bound='enumerated: every dest alignment 0..7, len 0..40, 120..139, 248..267, 300, 391',
+  timeout=900, tiers=('thorough',))
+for fn, nm, lmax in ((2, 'mem_prim_set16', 40), (3, 'mem_prim_set32', 40)):
+    J('B.%s' % nm, PRIM_PROPS, 'B', 'harness/memprim.c', sources=[PRIM], defines=['FN=%d' % fn, 'LMAX=%d' % lmax],
+      unwind=8 + 8 + (lmax + 2) * 4 + 8 + 4, cbmc_flags=['--max-field-sensitivity-array-size', '4000'], replay=True, object_bits=10,
+      functions=[nm], bound='enumerated: every element alignment, len 0..%d elements' % lmax, timeout=900)
+for fn, nm, lmax in ((5, 'mem_prim_move8', 36), (6, 'mem_prim_move16', 36), (7, 'mem_prim_move32', 36)):
+    J('B.%s' % nm, PRIM_PROPS, 'B', 'harness/memprim.c', sources=[PRIM], defines=['FN=%d' % fn, 'LMAX=%d' % lmax],
+      replay=True, functions=[nm], timeout=900,
+      variants=[{'label': 'off%+d' % off, 'defines': ['OFF=%d' % off],
+                 'unwind': 8 + 8 + (lmax + abs(off) + 2) * 4 + 8 + 4} for off in (1, 3, 17, 64, -1, -3, -17, -64)],
+      cbmc_flags=['--max-field-sensitivity-array-size', '4000'],
+      bound='enumerated: every element alignment, len 1..%d elements, src-dest in +-{1,3,17,64} elements' % lmax)
+
 BY_NAME = {j.name: j for j in JOBS}
